@@ -15,21 +15,25 @@
   with `$` iff `isOp code`.
 
   Known findings (the code really fails the property there; witnesses replayed on the real code
-  by the check; `knownIgnored*`, `knownSilent` are generated from the `known` entries of
-  known_findings.json): three positions validate nothing (a path reaching no value, update
-  matching no document, clauses next to `$each` in `$addToSet`) — the former finding "top-level
-  `$not` (also directly inside `$elemMatch`) is accepted and ignored" is fixed in the library
-  (`ignored:queryTop:$not`, `ignored:queryElemMatch:$not`: `$not` is rejected at the top level
-  and evaluated on the element inside `$elemMatch`); ONE option is still accepted without an
-  opt-out: `Collection.find(collation=…)`, which the library stores on the cursor on purpose
-  (`known_silent_is_find_collation` names it).
+  by the check; `knownIgnoredPairs`, `knownIgnoredSitePairs`, `knownSilent` are generated from
+  the `known` entries of known_findings.json):
+  * `$ne` / `$nin` in a condition whose path reaches no value select every document whatever
+    their operand is (`ignored:queryFieldDeadEnd:$ne`, `…:$nin`; `known_ignored_are_ne_nin`
+    names them) — a deviation of the matcher that shows here as an operator taking no part;
+  * ONE option is still accepted without an opt-out: `Collection.find(collation=…)`, which the
+    library stores on the cursor on purpose (`known_silent_is_find_collation` names it).
   Repaired in the library and gone from every exclusion list (the witnesses are probed again on
-  every run, harness/props/c20.py `judge_fixed`): the options dropped silently by `find` /
-  `find_one` (session: d0b630a; `find_one` collation: 08d4d98), `aggregate` (b1f1430),
-  `create_index` (a8af69f), `find_one_and_*` (1dab744), bulk `add_*` (51ec724),
-  `Database.command` (612f87a), and the opt-outs that did not work (`aggregate(session)` b1f1430,
-  `Database` methods 4a36577) — `opt_out_is_honoured` now holds over the whole table and there is
-  no list of ineffective opt-outs any more.
+  every run, harness/props/c20.py `judge_fixed`):
+  * top-level `$not` accepted and ignored (b0b21d1);
+  * the three positions that validated nothing: a condition whose path reaches no value (6c55e75),
+    an update that matches no document (1244abc), the clauses next to `$each` in `$addToSet`
+    (6c1d985) — `unknown_raises` now holds at EVERY position (`Position.lazy` and the list
+    `knownIgnoredPositions` are gone, `unknown_raises_full_fails` is deleted);
+  * the options dropped silently by `find` / `find_one` (session: d0b630a; `find_one` collation:
+    08d4d98), `aggregate` (b1f1430), `create_index` (a8af69f), `find_one_and_*` (1dab744), bulk
+    `add_*` (51ec724), `Database.command` (612f87a), and the opt-outs that did not work
+    (`aggregate(session)` b1f1430, `Database` methods 4a36577) — `opt_out_is_honoured` holds over
+    the whole table and there is no list of ineffective opt-outs any more.
   When a defect is fixed in /repo: set its entry to "fixed" in known_findings.json, and once no
   `ignored` entry is left delete the `_full`/`_full_fails` pair and rename `_partial`.
 -/
@@ -44,8 +48,8 @@ open MongoModel.Vocab
 def no_vocab_name_ignored_full : Prop :=
   ∀ e ∈ Generated.vocab, e.disp ≠ .ignored
 
-/-- It is false of the code as it stands (the lazy positions): the regenerated table contains
-    an `ignored` entry. -/
+/-- It is false of the code as it stands (`$ne` / `$nin` on a path that reaches no value): the
+    regenerated table contains an `ignored` entry. -/
 theorem no_vocab_name_ignored_full_fails : ¬ no_vocab_name_ignored_full := by
   intro h
   obtain ⟨e, he, hd⟩ := List.any_eq_true.mp Proofs.C20.some_entry_ignored
@@ -56,8 +60,21 @@ theorem no_vocab_name_ignored_full_fails : ¬ no_vocab_name_ignored_full := by
     entry breaks this proof, and the check reports the probing call as the failing input. -/
 theorem no_vocab_name_ignored_partial :
     ∀ e ∈ Generated.vocab, e.disp = .ignored →
-      e.pos ∈ Generated.knownIgnoredPositions ∨ (e.pos, e.code) ∈ Generated.knownIgnoredPairs :=
-  Proofs.C20.rows_known_entries _ _ _ Proofs.C20.rows_known
+      (e.pos, e.code) ∈ Generated.knownIgnoredPairs :=
+  Proofs.C20.rows_known_entries _ _ Proofs.C20.rows_known
+
+/-- **The listed cases, by name**: `$ne` and `$nin` in a condition whose path reaches no value. -/
+theorem known_ignored_are_ne_nin :
+    ∀ p ∈ Generated.knownIgnoredPairs, p.1 = .queryFieldDeadEnd ∧ (p.2 = cNe ∨ p.2 = cNin) :=
+  Proofs.C20.known_ignored_pairs_are_ne_nin
+
+/-- **No name is ignored, but for `$ne` / `$nin` on a path that reaches no value.**  Over the
+    whole regenerated table — every name of the vocabulary, of the code's tables, near-miss and
+    random names, at each of the 16 positions, the three formerly lazy ones included. -/
+theorem no_vocab_name_ignored_except_ne_nin :
+    ∀ e ∈ Generated.vocab, e.disp = .ignored →
+      e.pos = .queryFieldDeadEnd ∧ (e.code = cNe ∨ e.code = cNin) :=
+  fun e he h => known_ignored_are_ne_nin (e.pos, e.code) (no_vocab_name_ignored_partial e he h)
 
 /-- the hypothesis is inhabited: the table does contain ignored entries to which it applies -/
 example : ∃ e ∈ Generated.vocab, e.disp = .ignored := by
@@ -78,31 +95,34 @@ theorem tables_are_the_source_tables : Generated.tables = Generated.tablesS.map 
 
 /-! ## the dispatch structure: every name, every table -/
 
-/-- The full-strength statement: an unrecognised `$name` raises at EVERY position. -/
-def unknown_raises_full : Prop :=
-  ∀ (T : Tables Code) (pos : Position) (k : Code), isOp k = true → k ∉ recognised T pos →
-    (dispatch T pos k).raises = true
-
-/-- False as it stands (known findings `ignored:queryFieldDeadEnd:*`, `ignored:updateNoMatch:*`,
-    `ignored:addToSetModifier:*`): e.g. the name `$` in a condition on a dead-end path. -/
-theorem unknown_raises_full_fails : ¬ unknown_raises_full :=
-  Proofs.C20.unknown_raises_full_fails
-
-/-- **Unknown names raise (partial: outside the three lazy positions).**  Whatever the tables
-    are, a name that starts with `$` and for which the position has no branch at all ends in the
-    default branch, which raises: NotImplementedError for stages and accumulators,
-    OperationFailure / WriteError / ValueError elsewhere. -/
-theorem unknown_raises_partial (T : Tables Code) (pos : Position) (k : Code)
-    (hlazy : pos.lazy = false) (hop : isOp k = true) (hk : k ∉ recognised T pos) :
+/-- **Unknown names raise — at every position** (the full statement; formerly
+    `unknown_raises_partial`, which excluded three lazy positions, next to a proved
+    `unknown_raises_full_fails`).  Whatever the tables are, a name that starts with `$` and for
+    which the position has no branch at all ends in the default branch, which raises:
+    NotImplementedError for stages and accumulators, OperationFailure / WriteError / ValueError
+    elsewhere. -/
+theorem unknown_raises (T : Tables Code) (pos : Position) (k : Code)
+    (hop : isOp k = true) (hk : k ∉ recognised T pos) :
     dispatch T pos k = defaultRaise pos :=
-  Proofs.C20.unknown_raises T pos k hlazy hop hk
+  Proofs.C20.unknown_raises T pos k hop hk
 
-/-- non-vacuity: `$typo` is not recognised as a query operator by the regenerated tables -/
-example : Position.queryField.lazy = false ∧ isOp 478628377636 = true ∧
-    478628377636 ∉ recognised Generated.tables .queryField := by decide +kernel
+/-- the same in the form of the former `unknown_raises_full` -/
+theorem unknown_raises_everywhere :
+    ∀ (T : Tables Code) (pos : Position) (k : Code), isOp k = true → k ∉ recognised T pos →
+      (dispatch T pos k).raises = true :=
+  Proofs.C20.unknown_raises_everywhere
+
+/-- non-vacuity: `$typo` is not recognised as a query operator by the regenerated tables, nor
+    at the three positions that used to validate nothing -/
+example : isOp 478628377636 = true ∧
+    478628377636 ∉ recognised Generated.tables .queryField ∧
+    478628377636 ∉ recognised Generated.tables .queryFieldDeadEnd ∧
+    478628377636 ∉ recognised Generated.tables .updateNoMatch ∧
+    478628377636 ∉ recognised Generated.tables .addToSetModifier := by decide +kernel
 
 /-- At the positions whose default branch does not even look at the `$` (inside `$not`, update
-    operator, `$push` clause, stage, accumulator, `$type` alias) ANY unrecognised key raises. -/
+    operator — a document matching or not —, `$push` and `$addToSet` clause, stage, accumulator,
+    `$type` alias) ANY unrecognised key raises. -/
 theorem unknown_raises_strict (T : Tables Code) (pos : Position) (k : Code)
     (hs : Proofs.C20.Position.strict pos = true) (hk : k ∉ recognised T pos) :
     dispatch T pos k = defaultRaise pos :=
@@ -111,20 +131,49 @@ theorem unknown_raises_strict (T : Tables Code) (pos : Position) (k : Code)
 example : Proofs.C20.Position.strict .typeAlias = true ∧
     enc "integer" ∉ recognised Generated.tables .typeAlias := by decide +kernel
 
-/-- **The structure ignores a name only in the listed ways**: at a lazy position, or a
-    connective of `LOGICAL_OPERATOR_MAP` whose value is truthy whatever its operands say, at the
-    top level of a filter or of an `$elemMatch` query. -/
+/-- **The structure ignores a name only in the listed ways**: a connective of
+    `LOGICAL_OPERATOR_MAP` other than `$not` whose value is truthy whatever its operands say, at
+    the top level of a filter or of an `$elemMatch` query; `$ne` / `$nin` in a condition whose
+    path reaches no value; an update operator that the pre-check `_validate_update_operators`
+    lets through and the operator loop has no branch for, when no document matches. -/
 theorem ignored_only_structurally (T : Tables Code) (pos : Position) (k : Code)
     (h : dispatch T pos k = .ignored) :
-    pos.lazy = true ∨
-      (k ∈ T.logicalConst ∧ k ∈ T.logicalOps ∧ (pos = .queryTop ∨ pos = .queryElemMatch)) :=
+    (k ∈ T.logicalConst ∧ k ∈ T.logicalOps ∧ k ≠ cNot ∧
+      (pos = .queryTop ∨ pos = .queryElemMatch)) ∨
+    (pos = .queryFieldDeadEnd ∧ (k = cNe ∨ k = cNin)) ∨
+    (pos = .updateNoMatch ∧ k ∈ T.updateChecked ∧ k ∉ T.updaters ∧ k ∉ T.updateInline) :=
   Proofs.C20.ignored_only_structurally T pos k h
 
-/-- the second alternative is inhabited by tables with a constant connective other than `$not`
+/-- the first alternative is inhabited by tables with a constant connective other than `$not`
     (today's `LOGICAL_OPERATOR_MAP` has none: its only constant entry, `$not`, is no longer taken
     at the top level — the repaired finding `ignored:queryTop:$not`) -/
 example : dispatch { Tables.empty with logicalOps := [cAll], logicalConst := [cAll] } .queryTop cAll
     = .ignored := by decide +kernel
+
+/-- the second by any table that implements `$ne`, the third by a pre-check that lets through
+    a name the operator loop does not know -/
+example : dispatch { Tables.empty with operatorMap := [cNe] } .queryFieldDeadEnd cNe = .ignored ∧
+    dispatch { Tables.empty with updateChecked := [7] } .updateNoMatch 7 = .ignored := by
+  decide +kernel
+
+/-- **The pre-check of an update lets through only what the operator loop has a branch for**
+    (regenerated tables: `_updaters` ∪ `_OTHER_UPDATE_OPERATORS` against `_updaters` and the
+    `elif k == '$op'` branches of `_apply_update`). -/
+theorem update_precheck_within_loop :
+    ∀ k ∈ Generated.tables.updateChecked,
+      k ∈ Generated.tables.updaters ∨ k ∈ Generated.tables.updateInline := by
+  intro k hk
+  have := List.all_eq_true.mp Proofs.C20.update_precheck_within_loop_tbl k hk
+  simpa using this
+
+/-- **Over the regenerated tables the structure ignores nothing but `$ne` / `$nin` on a path
+    that reaches no value** — for EVERY name (probed or not) and every position. -/
+theorem generated_dispatch_ignores_only_ne_nin (pos : Position) (k : Code)
+    (h : dispatch Generated.tables pos k = .ignored) :
+    pos = .queryFieldDeadEnd ∧ (k = cNe ∨ k = cNin) :=
+  Proofs.C20.generated_dispatch_ignores_only_ne_nin pos k h
+
+example : dispatch Generated.tables .queryFieldDeadEnd cNe = .ignored := by decide +kernel
 
 /-- `$not` at the top level of a filter raises, and is evaluated inside `$elemMatch`, whatever
     the tables say about `LOGICAL_OPERATOR_MAP` -/
@@ -178,10 +227,10 @@ theorem no_site_name_ignored :
 /-- **Unknown names raise at every consumer site**: a probed `$name` for which the site's
     dispatcher has no branch at all makes the call raise there. -/
 theorem site_unknown_raises :
-    ∀ e ∈ Generated.siteVocab, e.pos.lazy = false → isOp e.code = true →
+    ∀ e ∈ Generated.siteVocab, isOp e.code = true →
       e.code ∉ recognised Generated.tables e.pos → e.disp.raises = true :=
-  fun e he h1 h2 h3 =>
-    Proofs.C20.site_unknown_raises Generated.tables e (sites_follow_dispatch e he) h1 h2 h3
+  fun e he h2 h3 =>
+    Proofs.C20.site_unknown_raises Generated.tables e (sites_follow_dispatch e he) h2 h3
 
 /-- **The list of sites is complete for the source**: every call of a dispatch helper in a
     module-level function of `mongomock/aggregate.py` is reached by a probed site. -/
@@ -195,7 +244,7 @@ example : (List.range Generated.sites.length).all (fun i =>
     Generated.siteVocab.any (fun e => e.site == i && e.disp.raises)) = true :=
   Proofs.C20.every_site_has_a_refusal
 
-example : Position.accumulator.lazy = false ∧ isOp 478628377636 = true ∧
+example : isOp 478628377636 = true ∧
     478628377636 ∉ recognised Generated.tables .accumulator := by decide +kernel
 
 /-! ## the option matrix -/
